@@ -1900,7 +1900,11 @@ pub fn sllv(
     // get operands
     let rd = get_register(detail.operands[0].reg())?.scalar();
     let rt = get_register(detail.operands[1].reg())?.expression();
-    let rs = get_register(detail.operands[2].reg())?.expression();
+    // the shift amount is the low five bits of rs
+    let rs = Expr::and(
+        get_register(detail.operands[2].reg())?.expression(),
+        expr_const(0x1f, 32),
+    )?;
 
     let block_index = {
         let block = control_flow_graph.new_block()?;
@@ -2174,7 +2178,11 @@ pub fn srav(
     // get operands
     let rd = get_register(detail.operands[0].reg())?.scalar();
     let rt = get_register(detail.operands[1].reg())?.expression();
-    let rs = get_register(detail.operands[2].reg())?.expression();
+    // the shift amount is the low five bits of rs
+    let rs = Expr::and(
+        get_register(detail.operands[2].reg())?.expression(),
+        expr_const(0x1f, 32),
+    )?;
 
     let block_index = {
         let block = control_flow_graph.new_block()?;
@@ -2224,7 +2232,11 @@ pub fn srlv(
     // get operands
     let rd = get_register(detail.operands[0].reg())?.scalar();
     let rt = get_register(detail.operands[1].reg())?.expression();
-    let rs = get_register(detail.operands[2].reg())?.expression();
+    // the shift amount is the low five bits of rs
+    let rs = Expr::and(
+        get_register(detail.operands[2].reg())?.expression(),
+        expr_const(0x1f, 32),
+    )?;
 
     let block_index = {
         let block = control_flow_graph.new_block()?;
